@@ -230,6 +230,23 @@ example : (do
     pure ((view a1 h1).toOption, (view a2 h2).toOption)).toOption =
     some (some (1, [0x61, 0x62, 0x63, 0]), some (1, [0x61, 0x62, 0])) := by decide
 
+/-- **set while the allocator fails** (true by the construction of `setNoMem`, which mirrors the early `return 0` of the
+    code; tied to the code by the correspondence run with injected malloc failure): either the request is refused and
+    identifier and heap are exactly what they were — charset, length and bytes — or no allocation was needed and the
+    call is the ordinary `set`. -/
+theorem set_without_memory (id : Ident) (h : Heap) (k : Nat) (name : Option (List Byte)) (len : Int) :
+    setNoMem id h k name len = .ok (id, h, false) ∨ setNoMem id h k name len = set id h k name len := by
+  have key : ∀ {α : Type} (c : Prop) [Decidable c] (x y : α), (if c then x else y) = x ∨ (if c then x else y) = y := by
+    intro α c _ x y; by_cases hc : c <;> simp [hc]
+  unfold setNoMem
+  exact key _ _ _
+
+example : (do
+    let a ← create 16
+    let (a1, h1, _) ← set a ⟨[]⟩ 0 (some ([0x61, 0x62] ++ [0])) 2
+    let (a2, h2, ok) ← setNoMem a1 h1 0 none 40
+    pure (ok, (view a2 h2).toOption)).toOption = some (false, some (1, [0x61, 0x62, 0])) := by decide
+
 /-- **compare, every operand shape**: for an identifier that denotes the value `v` (text or not), the comparison with
     `len` bytes of a buffer that may be longer, or with the C string in it (`len < 0`), is zero exactly when `v` is
     that text. -/
